@@ -1668,7 +1668,7 @@ string StringReader::pread(size_t offset, size_t size) const {
 }
 
 string StringReader::preadx(size_t offset, size_t size) const {
-  if (offset + size > this->length) {
+  if ((offset > this->length) || (size > this->length - offset)) {
     throw out_of_range("not enough data to read");
   }
   return string(reinterpret_cast<const char*>(this->data + offset), size);
@@ -1691,7 +1691,7 @@ size_t StringReader::pread(size_t offset, void* data, size_t size) const {
 }
 
 void StringReader::preadx(size_t offset, void* data, size_t size) const {
-  if ((offset >= this->length) || (offset + size > this->length)) {
+  if ((offset > this->length) || (size > this->length - offset)) {
     throw out_of_range("not enough data to read");
   }
   memcpy(data, this->data + offset, size);
